@@ -205,6 +205,90 @@ func (w *world) revisable(ci int) bool {
 	return rs.Revisable
 }
 
+// doChainRev plays the renter broadcasting the latest revision of contract c: the revision the host holds off-chain is
+// submitted to the pool right away (the host itself only broadcasts it near the proof window), so that the next block
+// mined from the pool confirms it and a following reorg can drop it again.
+func (w *world) doChainRev(tr *vhlib.Trace, ci int) {
+	op := fmt.Sprintf("chainrev c=%d", ci)
+	if w.dead {
+		return
+	}
+	res := "ok"
+	if ci < 0 || ci >= len(w.cons) || w.cons[ci].v1 || !w.cons[ci].formed || w.cons[ci].resolved {
+		res = "nocontract"
+	} else {
+		c := w.cons[ci]
+		n := w.host
+		basis, fce, err := n.con.V2FileContractElement(c.id)
+		switch {
+		case err != nil:
+			res = "noelement"
+		case c.fc.RevisionNumber <= fce.V2FileContract.RevisionNumber:
+			res = "nothingnew"
+		case n.cm.Tip().Height+1 > fce.V2FileContract.ProofHeight:
+			res = "toolate"
+		default:
+			txn := types.V2Transaction{FileContractRevisions: []types.V2FileContractRevision{{Parent: fce.Copy(), Revision: c.fc}}}
+			if _, err := n.cm.AddV2PoolTransactions(basis, []types.V2Transaction{txn}); err != nil {
+				res = "poolrej_" + clip(err.Error())
+			}
+		}
+	}
+	key := res
+	if len(key) > 7 {
+		key = key[:7]
+	}
+	tr.Count("chainrev:" + key)
+	w.finish(tr, op, "chainrev="+res)
+}
+
+// revisionDepth is the reorg depth that disconnects the most recent confirmed revision of a host contract (0: none).
+func (w *world) revisionDepth() int {
+	tipH := w.host.cm.Tip().Height
+	best := 0
+	for _, c := range w.cons {
+		if c.v1 || c.revH == 0 || c.revH > tipH {
+			continue
+		}
+		if d := int(tipH-c.revH) + 1; best == 0 || d < best {
+			best = d
+		}
+	}
+	return best
+}
+
+// dropRevision: a revision of a confirmed v2 contract is confirmed on chain and then (mostly) reorged out again, at
+// depth 1 or deeper. A suitable contract is formed first when none is at hand.
+func (w *world) dropRevision(tr *vhlib.Trace, r *vhlib.Rand, _ int) {
+	pick := func() int {
+		for i := len(w.cons) - 1; i >= 0; i-- {
+			c := w.cons[i]
+			if !c.v1 && c.formed && !c.resolved && w.revisable(i) {
+				return i
+			}
+		}
+		return -1
+	}
+	ci := pick()
+	if ci < 0 {
+		w.doForm(tr, uint64(16+r.Intn(8)))
+		w.doMine(tr, 1, "host", true)
+		if ci = pick(); ci < 0 {
+			return
+		}
+	}
+	w.doRevise(tr, ci)
+	w.doChainRev(tr, ci)
+	w.doMine(tr, 1, "host", true)
+	if r.Chance(1, 3) {
+		w.doMine(tr, 1+r.Intn(2), "host", true)
+	}
+	if d := w.revisionDepth(); d >= 1 && d <= 6 && r.Chance(4, 5) {
+		w.doReorg(tr, d+r.Intn(2), d+2+r.Intn(2), "void", r.Chance(1, 3))
+		w.doMine(tr, 1, "host", true)
+	}
+}
+
 // doTwin builds a second complete host node that holds the same contracts (same formation sets, same revisions,
 // same sector data) but is fed only the blocks of the final best chain, through the real index sync, and reports its
 // contract views next to the living node's (C01: contract chain state is a function of the best chain).
@@ -365,10 +449,13 @@ func genContracts(t *testing.T, tr *vhlib.Trace, r *vhlib.Rand, n int) {
 		case x < 12 && len(w.cons) < 4:
 			form()
 		case x < 20 && net != "v1" && len(w.cons) > 0:
-			if r.Chance(1, 2) {
+			switch r.Intn(3) {
+			case 0:
 				w.doAppend(tr, r.Intn(len(w.cons)))
-			} else {
+			case 1:
 				w.doRevise(tr, r.Intn(len(w.cons)))
+			default:
+				w.dropRevision(tr, r, r.Intn(len(w.cons)))
 			}
 		case x < 40 && reorgs < 6:
 			reorgs++
